@@ -603,8 +603,7 @@ def enc_params(ctx: Ctx, params, values: dict, origin: int, eop: bool, what: str
             pdu.ensure(end)
             keypos[p["name"]] = (pos, bit)
         elif pk == "tablekey":
-            if p.get("row") is not None:
-                raise RefUnsupported("TABLE-KEY with static TABLE-ROW-REF (wire image not fixed by the reference)")
+            # a statically selected row (TABLE-ROW-REF): its key is on the wire like a constant
             sb = dct_static_bits(p["table"]["keydop"]["dct"])
             end = pos + (bit + sb + 7) // 8
             pdu.ensure(end)
